@@ -498,8 +498,10 @@ def rule_selfloop_convention(m):
 
 
 # ------------------------------------------------------------------------------------------------
-def rule_full_loops(m):
-    """F-LOOP: every vertex loop covers [0,size)."""
+def rule_full_loops(m, classes=None):
+    """F-LOOP: every vertex loop covers [0,size).  `classes`: the graph classes whose objects the property speaks about
+    (decides whether a counter-justified early exit rests on an invariant that holds for them)."""
+    classes = list(classes or GRAPH_CLASSES)
     res = RuleResult('F-LOOP', 'every loop over vertices in the graph classes and algorithms covers [0,size): a '
                                'range-for over the graph (begin()=VertexIterator(0), end()=VertexIterator(size), ++ adds '
                                'one) or for (i = 0; i < size [&& flag]; ++i)')
@@ -565,21 +567,183 @@ def rule_full_loops(m):
                 d = f.nodes[init]['decls'][0]
             if d is not None and classic_loop_var(m, f, tt, d) is True:
                 # extra conjuncts must be boolean locals (early exit once the result is known)
-                extra = [cj for cj in _conjuncts(c) if not (cj[0] == 'bin' and cj[1] == '<')]
-                if all(cj[0] == 'var' and f.unit.decl(cj[1]).get('ctype') == 'bool' for cj in extra):
-                    res.ok(dict(function=f.display(), loop=f.expr_text(n['cond'])[:60], at=f.nloc(n['i']))
+                extra = [cj for cj in _conjuncts(c) if not (cj[0] == 'bin' and cj[1] == '<' and cj[2] == ('var', d) and
+                                                            (is_size_term(m, f, cj[3], tt) or (cj[3][0] == 'mcall' and cj[3][1].endswith('::size'))))]
+                verdicts = [('ok', '') if (cj[0] == 'var' and f.unit.decl(cj[1]).get('ctype') == 'bool' and _only_cleared(f, tt, cj[1]))
+                            else early_exit_verdict(m, f, tt, n, cj, True, classes) for cj in extra]
+                if all(v[0] == 'ok' for v in verdicts):
+                    res.ok(dict(function=f.display(), loop=f.expr_text(n['cond'])[:60], at=f.nloc(n['i']),
+                                early_exit=[v[1] for v in verdicts if v[1]])
                            if len(res.samples) < 8 else None, fn=f.display())
                     continue
+                bad = [v for v in verdicts if v[0] == 'violation']
+                if bad:
+                    res.fail(Finding('F-LOOP', f.display(), 'early exit from the vertex loop', f.nloc(n['i']), bad[0][1]))
+                    continue
+                res.fail(Finding('F-LOOP', f.display(), 'vertex loop', f.nloc(n['i']),
+                                 'expected a loop condition `i < size` with at most a result flag that is only ever cleared '
+                                 '(`%s`)' % f.expr_text(n['cond'])[:80]))
+                continue
             res.fail(Finding('F-LOOP', f.display(), 'vertex loop', f.nloc(n['i']),
                              'a loop bounded by the graph size is not of the form for (i = 0; i < size; ++i): some '
                              'vertices are skipped or the bound is exceeded (`%s`)' % f.expr_text(n['cond'])[:80]))
+    # range-for over all vertices in a mutator: the loop runs to exhaustion (no break / return out of it)
+    for f in m.fns:
+        if f.is_lambda or f.is_const or f.is_ctor or f.record not in GRAPH_CLASSES:
+            continue
+        tt = Terms(f)
+        for n in f.nodes:
+            if n['k'] != 'CXXForRangeStmt' or tt.t(n['rangeinit']) not in (('deref', ('this',)), ('this',)):
+                continue
+            res.sites += 1
+            body = set(f.descendants(n['body']))
+            exits = []
+            for x in f.nodes:
+                if x['i'] not in body:
+                    continue
+                if x['k'] in ('ReturnStmt', 'GotoStmt'):
+                    exits.append(x)
+                if x['k'] == 'BreakStmt':
+                    owner = None
+                    for a in f.ancestors(x['i']):
+                        if f.nodes[a]['k'] in ('ForStmt', 'WhileStmt', 'DoStmt', 'CXXForRangeStmt', 'SwitchStmt'):
+                            owner = a
+                            break
+                    if owner == n['i']:
+                        exits.append(x)
+            verdict = None
+            for x in exits:
+                from .rules_pair import true_atoms
+                atoms = []
+                for dep in f.region(x['i']) - f.region(n['loopvarstmt']):
+                    a = f.branch_atom(dep[0])
+                    if a is not None:
+                        atoms.extend(true_atoms(tt.t(a), dep[1] == 0))
+                if x['k'] != 'BreakStmt' or not atoms:
+                    verdict = ('violation', 'the loop over all vertices of a mutator is left early (%s): the remaining vertices '
+                               'are not processed' % x['k'])
+                    break
+                vs = [early_exit_verdict(m, f, tt, n, a, False, classes) for a in atoms]
+                if any(v[0] == 'ok' for v in vs):
+                    continue
+                bad = [v for v in vs if v[0] == 'violation']
+                verdict = bad[0] if bad else ('unknown', 'expected a vertex loop of a mutator without early exit (break under `%s`)'
+                                              % ' && '.join(show(a, f.unit)[:40] for a in atoms))
+                break
+            if verdict:
+                res.fail(Finding('F-LOOP', f.display(), 'early exit from the vertex loop', f.nloc(exits[0]['i']), verdict[1]))
+            else:
+                res.ok(dict(function=f.display(), loop='for (v : *this) runs to exhaustion', at=f.nloc(n['i']))
+                       if len(res.samples) < 14 else None, fn=f.display())
     res.require_sites(10, 'vertex loops and range bounds')
     return res
 
 
+def early_exit_verdict(m, f, tt, loop, atom, is_continue_cond, classes):
+    """A vertex loop that ends before the last vertex because of a test on the edge counter.  The test can only be
+    justified by the invariant `sum of the adjacency list lengths == edge counter`, which the F-PAIR.N pairing
+    gives for the directed family (one entry per counted edge) and which is false for the undirected family (two
+    entries per counted non-loop pair).  -> ('ok'|'violation'|'unknown', text).
+    atom: the condition under which the loop CONTINUES (is_continue_cond) or is LEFT (break)."""
+    from .rules_pair import pos_atom
+    cont = atom if is_continue_cond else pos_atom(atom, False)
+    body = set(f.descendants(loop['body'])) | (set(f.descendants(loop['inc'])) if loop.get('inc', -1) >= 0 else set())
+    ev = events_of(m, f)
+
+    def role_of(t):
+        t = strip_cast(t)
+        if t[0] == 'field':
+            return m.role_of_field(t[1])
+        if t[0] == 'mcall' and t[2] in (('this',), ('deref', ('this',))) and t[1].endswith('::getEdgeNumber'):
+            return 'N'
+        return None
+    # writes of N inside the loop (own events and callees on this object)
+    n_writes = [e for e in ev.events if e.node in body and e.kind.startswith('N.')]
+    callee_writes = []
+    for nid, g in m.callees(f):
+        if nid in body and f.nodes[nid]['k'] == 'CXXMemberCallExpr' and not g.is_const and 'N' in summary_of(m, g).writes:
+            callee_writes.append(nid)
+    sizes_sub = [e for e in n_writes if e.kind == 'N.sub' and strip_cast(e.args[0])[0] == 'mcall' and
+                 strip_cast(e.args[0])[1] == 'std::list::size']
+    mentions_counter = any(role_of(st) == 'N' for st in subterms(cont))
+    visited = None
+    for st in subterms(cont):
+        if st[0] == 'var':
+            defs = var_defs(f, st[1])
+            adds = [d for d in defs if d[0] in body and f.nodes[d[0]]['k'] == 'CompoundAssignOperator' and f.nodes[d[0]].get('op') == '+=']
+            if adds and all(strip_cast(tt.t(f.nodes[d[0]]['c'][1]))[0] == 'mcall' and
+                            strip_cast(tt.t(f.nodes[d[0]]['c'][1]))[1] == 'std::list::size' for d in adds):
+                visited = st
+            # ... or counts the entries of the adjacency lists one by one
+            incs = [d for d in defs if d[0] in body and d[1] == -2 and f.nodes[d[0]]['k'] == 'UnaryOperator' and f.nodes[d[0]]['op'] == '++']
+            if incs and len(incs) + 1 == len(defs):
+                def in_list_loop(nid):
+                    for a in f.ancestors(nid):
+                        an = f.nodes[a]
+                        if a == loop['i']:
+                            return False
+                        probe = an.get('cond', -1) if an['k'] in ('ForStmt', 'WhileStmt') else an.get('rangeinit', -1) if an['k'] == 'CXXForRangeStmt' else -1
+                        if probe >= 0 and any(st2[0] == 'idx' and st2[1][0] == 'field' and m.role_of_field(st2[1][1]) == 'A'
+                                              for st2 in subterms(tt.t(probe))):
+                            return True
+                    return False
+                if all(in_list_loop(d[0]) for d in incs):
+                    visited = st
+            inits = [tt.t(d[1]) for d in defs if d[1] >= 0]
+            if len(defs) == 1 and inits and role_of(inits[0]) == 'N' and d_before_loop(f, defs[0][0], loop):
+                mentions_counter = True
+    if not mentions_counter and visited is None:
+        return ('unknown', '')
+    # which classes of the property run this code
+    key = None
+    from .model import tkey
+    key = tkey(f)
+    users = [c for c in classes if key in m.closure_tnames(m.class_entry_tnames(c))]
+    undirected = [c for c in users if c in UNDIRECTED_FAMILY]
+    if undirected:
+        return ('violation', 'the vertex loop ends early on a test of the edge counter (`%s`): that presumes one adjacency entry per '
+                'counted edge, but %s runs this code and keeps two entries per counted pair, so lists of later vertices are '
+                'never reached' % (show(cont, f.unit)[:60], ', '.join(short(c) for c in undirected)))
+    # directed family: form (b) counter decremented by each list length, continue while counter > 0
+    if visited is None and cont[0] == 'bin' and cont[1] in ('>', '!=') and role_of(cont[2]) == 'N' and strip_cast(cont[3]) == ('int', 0) and \
+            len(n_writes) == len(sizes_sub) == 1 and not callee_writes:
+        return ('ok', 'counter decremented by each list length; one adjacency entry per counted edge in the directed family')
+    # form (a) visited (sum of list lengths so far) against a loop-invariant counter
+    if visited is not None and not n_writes and not callee_writes and cont[0] == 'bin' and cont[1] in ('<', '!='):
+        return ('ok', 'sum of visited list lengths against the loop-invariant edge counter (directed family)')
+    if not n_writes and not callee_writes:
+        return ('unknown', '')
+    return ('violation', 'the vertex loop ends early on a test of the edge counter (`%s`) although the loop body itself changes that '
+            'counter%s: the number of entries still to visit is not what the test measures, and vertices that still hold '
+            'affected edges are skipped' % (show(cont, f.unit)[:60], ' (through %s)' % f.expr_text(callee_writes[0])[:30] if callee_writes else ''))
+
+
+def d_before_loop(f, defnode, loop):
+    return defnode not in f.descendants(loop['i']) and f.can_reach_forward(defnode, loop['body'])
+
+
+def _only_cleared(f, tt, d):
+    """a boolean local that ends a loop early is only ever assigned `false` after its initialisation, or
+    conjunctions of itself (flag = flag && ...): once false, the result is final"""
+    from .rules_val import var_defs
+    for (dn, rhs) in var_defs(f, d):
+        if f.nodes[dn]['k'] == 'DeclStmt':
+            continue
+        if rhs < 0:
+            return False
+        t = tt.t(rhs)
+        if t == ('bool', False):
+            continue
+        if ('var', d) in _conjuncts(t):
+            continue
+        return False
+    return True
+
+
 # ------------------------------------------------------------------------------------------------
-def rule_equality(m):
+def rule_equality(m, classes=None):
     """F-EQ."""
+    classes = list(classes or GRAPH_CLASSES)
     res = RuleResult('F-EQ', 'operator== of the storage class compares size, edge count and label store of both '
                              'operands and checks mutual inclusion of the adjacency lists through hasEdge; every other '
                              '==/!= delegates to it on the same operands; != is the negation of ==')
@@ -615,7 +779,34 @@ def rule_equality(m):
                                 if a[0] == st[2] and a[1][0] == 'deref':
                                     incl.add((src, dst))
                         break
-        # the flag that ends the loops may only ever be set to false after its initialisation
+        # the loops compare every entry: they end only by exhaustion or on a flag that is only ever cleared
+        early = None
+        for n in f.nodes:
+            if n['k'] in ('BreakStmt', 'GotoStmt'):
+                early = early or (n['i'], 'a %s leaves a comparison loop' % n['k'])
+            if n['k'] == 'ReturnStmt' and any(f.nodes[a]['k'] in ('ForStmt', 'WhileStmt', 'DoStmt', 'CXXForRangeStmt') for a in f.ancestors(n['i'])):
+                rt = ctx.tt.t(f.children(n['i'])[0]) if f.children(n['i']) else ('none',)
+                if rt != ('bool', False):
+                    early = early or (n['i'], 'a return other than `return false` leaves a comparison loop')
+            if n['k'] in ('ForStmt', 'WhileStmt') and n.get('cond', -1) >= 0:
+                for cj in _conjuncts(ctx.tt.t(n['cond'])):
+                    if cj[0] == 'var' and f.unit.decl(cj[1]).get('ctype') == 'bool' and _only_cleared(f, ctx.tt, cj[1]):
+                        continue
+                    if cj[0] == 'bin' and cj[1] == '<' and cj[2][0] == 'var' and \
+                            (is_size_term(m, f, cj[3], ctx.tt) or (cj[3][0] == 'member' and m.role_of_field(cj[3][2]) == 'S')):
+                        continue
+                    if cj[0] == 'bin' and cj[1] == '!=' and cj[3][0] == 'mcall' and cj[3][1].endswith(('::end', '::cend')):
+                        continue
+                    v = early_exit_verdict(m, f, ctx.tt, n, cj, True, classes)
+                    if v[0] == 'ok':
+                        continue
+                    early = early or (n['i'], v[1] if v[0] == 'violation' else 'expected comparison loops that end by exhaustion or '
+                                      'on a cleared result flag, found the extra exit `%s`' % show(cj, f.unit)[:70])
+        if early:
+            res.sites += 1
+            res.fail(Finding('F-EQ', f.display(), 'early end of the comparison', f.nloc(early[0]),
+                             early[1] if early[1].startswith('expected ') else
+                             '%s: adjacency entries of some vertices are never compared although the result is not yet known' % early[1]))
         ok = roles_cmp >= {'S', 'N', 'L'} and (('this', 'other') in incl and ('other', 'this') in incl)
         if not ctx.labelled:
             ok = roles_cmp >= {'S', 'N'} and (('this', 'other') in incl and ('other', 'this') in incl)
